@@ -35,7 +35,8 @@ def _option_paths(body, opt_vars, f_in, stop_at, functions=None, formals=()):
             toks = list(env[m.group(1)])
             if a.kind == "quoted":
                 return [";".join(toks)] if toks else []
-            return toks
+            # unquoted: the value is a list again - an element that was stored as "a;b" (a quoted list reference) splits
+            return [piece for t in toks for piece in t.split(";") if piece != ""]
 
         def rep_(mm):
             v = env.get(mm.group(1))
@@ -136,7 +137,7 @@ def _option_paths(body, opt_vars, f_in, stop_at, functions=None, formals=()):
                     if env.get(ov) is None:
                         v = None
                         break
-                    v.extend(env[ov])
+                    v.extend(piece for t in env[ov] for piece in t.split(";") if piece != "")      # unquoted expansion
                 results.append((isdir, trail, v))
                 return
             if it.name in functions and depth < 3:
